@@ -326,6 +326,36 @@ def run(ctx):
                     same = False
                     which = (i, tm.show(cx, 0, 5)[:200], tm.show(cy, 0, 5)[:200])
                     break
+                if not same and be == 'sse2' and tn == 'Quat' and mname in ('slerp', 'rotate_towards'):
+                    # the SSE2 slerp evaluates its three sines with the backend's own polynomial; with that polynomial read as sin (justified by the
+                    # interval certificate |m128_sin - sin| <= 2e-6, C12 R-APPROX) the two builds must be the same real function
+                    from harness import Harness
+                    import tables
+                    Hx = Harness(Fb, {'extra_leaf': {'sse2::m128_sin': lambda I, fr, callee, args, dest, argops, line:
+                                                     tables.vec([tm.mk('sin', x) for x in tables.lanes(I, args[0], 4, 4)], 4)}})
+                    rx = Hx.run(it['key'])
+                    ox = root_outputs(Fb, rx, Fb.body(it['key'])) if not rx.abort else None
+                    if ox is not None and len(ox) == len(os_) and all(x is not None for x in ox):
+                        alg2 = nf.Algebra()
+                        ok2 = True
+                        for x, y in zip(ox, os_):
+                            cx, cy = canon_c07(x), canon_c07(y)
+                            if x is y or cx is cy:
+                                continue
+                            try:
+                                if alg2.r_eq(alg2.nf(cx), alg2.nf(cy)):
+                                    continue
+                            except Exception:
+                                pass
+                            ok2 = False
+                            which = (which[0], tm.show(cx, 0, 5)[:200], tm.show(cy, 0, 5)[:200])
+                            break
+                        if ok2:
+                            ctx.holds('R-SIB-REAL', pair, key, 'equal with the SSE2 sine polynomial read as sin (certified within 2e-6 by C12 R-APPROX)')
+                            continue
+                        ctx.violation('R-SIB-REAL', pair, key, {'file': it['file'], 'line': it['line'], 'problem': 'output %d is a different real function / guard than in the scalar-math build even with the SSE2 sine polynomial read as sin' % which[0],
+                                                                 'simd': which[1], 'scalar': which[2]})
+                        continue
                 if same:
                     ctx.holds('R-SIB-REAL', pair, key)
                 elif mname in OPAQUE_FNS or (tn == 'Quat' and mname in ('slerp', 'rotate_towards')):
